@@ -229,21 +229,26 @@ where
     /// Report one multi-version lookup (verification hook; `estimate` is re-read from the entry).
     #[cfg(grevm_verif)]
     fn verif_mv_read(&self, location: &LocationAndType, version: &ReadVersion) {
-        let (txid, incarnation, estimate) = match version {
-            ReadVersion::MvMemory(v) => (
-                v.txid as i64,
-                v.incarnation as i64,
-                self.blocking_txs.contains(&v.txid) as i64,
-            ),
-            _ => (crate::verif::NONE, crate::verif::NONE, 0),
+        let (txid, incarnation, estimate, value) = match version {
+            ReadVersion::MvMemory(v) => {
+                let entry = self.mv_memory.get(location).and_then(|w| {
+                    w.get(&v.txid).map(|e| (e.estimate as i64, crate::verif::val_id(&e.data)))
+                });
+                let (estimate, value) = entry.unwrap_or((crate::verif::NONE, crate::verif::NONE));
+                (v.txid as i64, v.incarnation as i64, estimate, value)
+            }
+            _ => (crate::verif::NONE, crate::verif::NONE, 0, crate::verif::NONE),
         };
-        crate::verif::p5(
+        crate::verif::point(
             "mv_read",
-            self.version.txid as i64,
-            crate::verif::loc_id(location),
-            txid,
-            incarnation,
-            estimate,
+            [
+                self.version.txid as i64,
+                crate::verif::loc_id(location),
+                txid,
+                incarnation,
+                estimate,
+                value,
+            ],
         );
     }
 
